@@ -73,7 +73,7 @@ Proof. vm_compute. reflexivity. Qed.
      Globals          ~  a stack of lookup functions name -> value.
    Each theorem: the output lists agree AND the abstraction of the final concrete state is the final abstract state
    (`erel` / `frel`: same lookup function, pointwise). *)
-From TSG Require Import Spec.ContainerSpec Spec.GraphSpec Proofs.ContainerRefine Proofs.GraphRefine.
+From TSG Require Import Spec.ContainerSpec Spec.GraphSpec Proofs.OrderFacts Proofs.ContainerRefine Proofs.GraphRefine.
 
 (* ---- (1) edges ---- *)
 Theorem edges_refine : forall ops,
@@ -153,6 +153,21 @@ Theorem globals_refine : forall ops,
   snd (run gstep cinit ops) = snd (run gspec [gempty] ops) /\
   frel (cs_vars (fst (run gstep cinit ops))) (fst (run gspec [gempty] ops)).
 Proof. intros ops. apply globals_refine_from. repeat constructor. Qed.
+
+(* the two enumerating observers of `Variables` after any history, against the innermost lookup function of the
+   abstract stack: iter lists exactly its bindings, each name once, ascending by name (the canonical order of the
+   observation; the HashMap order itself is not modelled); is_empty holds iff it binds nothing *)
+Theorem globals_observers_refine : forall ops,
+  let top := hd gempty (fst (run gspec [gempty] ops)) in
+  (forall l, snd (cstep (cstate_after cinit ops) OVarIter) = RAttrs l ->
+     StronglySorted key_le l /\ NoDup (map fst l) /\ forall k v, In (k, v) l <-> top k = Some v) /\
+  (forall b, snd (cstep (cstate_after cinit ops) OVarIsEmpty) = RBool b -> (b = true <-> forall k, top k = None)).
+Proof. exact globals_observers_lemma. Qed.
+
+(* the projected runners visit the states of the public language *)
+Theorem projected_runs_same_states : forall ops,
+  fst (run nstep cinit ops) = cstate_after cinit ops /\ fst (run gstep cinit ops) = cstate_after cinit ops.
+Proof. intros ops. split; [apply run_nstep_fst|apply run_gstep_fst]. Qed.
 
 (* ---- the WHOLE public operation language (the histories of the correspondence stream: add_graph_node, add_edge,
    get_edge, get_edge_mut, Attributes, iter_nodes, iter_edges, node_count, edge_count, Variables) against
